@@ -36,6 +36,7 @@ def containers(v, named=False):
         D.CentrallyBin([0, 2, 4], "x", v, nm=nm("cbx")),
         D.IrregularlyBin([1, 3], "x", v, nm=nm("irx")),
         D.Stack([1, 3], "x", v, nm=nm("stx")),
+        D.Stack([3, 1, 2], "x", v),        # (the thresholds of a Stack need not be sorted)
         D.Categorize("c", v, nm=nm("catc")),
         D.Fraction("s", v, nm=nm("frs")),
         D.Select("s", v, nm=nm("sels")),
@@ -147,7 +148,7 @@ def random_tree(rng, depth):
     if k == 4:
         return D.IrregularlyBin(rng.choice([[1, 3], [0], [0, 2, 4]]), q, sub(), nan=fl())
     if k == 5:
-        return D.Stack(rng.choice([[1, 3], [0], [0, 2, 4]]), q, sub(), nan=fl())
+        return D.Stack(rng.choice([[1, 3], [0], [0, 2, 4], [3, 1], [2, 0, 4]]), q, sub(), nan=fl())
     if k == 6:
         return D.Categorize("c", sub())
     if k == 7:
